@@ -26,16 +26,43 @@ LEVEL_TEXT = (
 )
 
 GRAMMAR_MOD = "geneticengine.grammar.grammar"
-WALKER_NAMES = ("register_type", "collect_types", "explode_generics", "usable_grammar", "strip_annotations")
+WALKER_NAMES = ("register_type", "collect_types", "reachability", "usable_grammar", "strip_annotations")
+
+
+def _reach_table_name(f: FunctionInfo) -> Optional[str]:
+    """the local table of a reachability propagator: a parameter-free name that is subscripted by a parameter / loop variable
+    and whose entries receive .add / .update"""
+    names: dict[str, int] = {}
+    for x in walk_local(f.node):
+        if isinstance(x, ast.Subscript) and isinstance(x.value, ast.Name) and "reach" in x.value.id.lower():
+            names[x.value.id] = names.get(x.value.id, 0) + 1
+    return max(names, key=names.get) if names else None
 
 
 def _find_walker(ctx: Ctx, name: str) -> FunctionInfo:
-    """the function called <name> (or _<name>) in the grammar package: method, nested or module-level"""
+    """the function called <name> (or _<name>) in the grammar package: method, nested or module-level.  'reachability' is
+    the function that adds a source symbol to the reachability sets of the symbols found inside a list of field types."""
+    if name == "reachability":
+        cands = [f for f in ctx.prog.functions.values() if f.module.name.startswith("geneticengine.grammar")
+                 and isinstance(f.node, (ast.FunctionDef, ast.AsyncFunctionDef)) and _reach_table_name(f)
+                 and len([p_ for p_ in f.params if p_ not in ("self", _reach_table_name(f))]) >= 2
+                 and any(isinstance(c, ast.Call) and isinstance(c.func, ast.Attribute) and c.func.attr in ("add", "update") for c in walk_local(f.node))]
+        if len(cands) != 1:
+            raise AnalysisError(f"C05: reachability propagator: {len(cands)} candidates in geneticengine.grammar (anchor changed)")
+        return cands[0]
     cands = [f for f in ctx.prog.functions.values() if f.module.name.startswith("geneticengine.grammar")
              and f.name in (name, "_" + name) and isinstance(f.node, (ast.FunctionDef, ast.AsyncFunctionDef))]
     if len(cands) != 1:
         raise AnalysisError(f"C05: walker {name}: {len(cands)} candidates in geneticengine.grammar (anchor changed)")
     return cands[0]
+
+
+def _all_types(ty):
+    out = [ty]
+    for a in getattr(ty, "args", ()) or ():
+        if hasattr(a, "kind"):
+            out += _all_types(a)
+    return out
 
 
 def _nested_types():
@@ -63,7 +90,12 @@ def walker_rule(ctx: Ctx, rid: str, only: tuple = ()) -> None:
         if only and wname not in only:
             continue
         f = _find_walker(ctx, wname)
-        for ty, leaves in _nested_types():
+        from ..treemodel import ABSTRACT
+        scenarios = list(_nested_types())
+        if wname == "usable_grammar":
+            # an abstract symbol that is itself a dataclass (@dataclass class X(ABC)): its productions are what is reachable
+            scenarios.append((ABSTRACT, {A, B}))
+        for ty, leaves in scenarios:
             if wname == "strip_annotations" and any(k in ty.name for k in ("Union", "tuple")):
                 continue   # strip_annotations is specified for list / annotated chains only
             fields = {PROD: [("f1", ty)]}
@@ -95,14 +127,23 @@ def walker_rule(ctx: Ctx, rid: str, only: tuple = ()) -> None:
             env: dict = {"self": Sym("self"), "self.all_nodes": set(), "self.considered_subtypes": [],
                          "self.alternatives": {}, "self.terminals": set(), "self.non_terminals": set(), "self.starting_symbol": PROD}
             params = [p_ for p_ in f.params if p_ != "self"]
-            if wname == "explode_generics":
-                env[params[0]] = [ty]
+            if wname == "reachability":
+                from ..modelinterp import DDict
+                table = DDict()
+                table.factory = set
+                rest = [p_ for p_ in params if p_ != _reach_table_name(f)]
+                env[rest[0]] = PROD
+                env[rest[1]] = [ty]
+                env[_reach_table_name(f)] = table
             elif wname == "usable_grammar":
-                pass
+                if ty is ABSTRACT:
+                    env["self.alternatives"] = {repr(ABSTRACT): [A, B]}
             else:
                 env[params[0]] = ty
             n += 1
-            desc = f"{wname} reaches the symbols inside {ty.name}"
+            desc = f"{'the reachability relation' if wname == 'reachability' else wname} reaches the symbols inside {ty.name}"
+            if ty is ABSTRACT:
+                desc = f"{wname} reaches the productions of an abstract symbol declared as a dataclass"
             try:
                 runs = it.run(f, env)
             except Budget:
@@ -113,7 +154,17 @@ def walker_rule(ctx: Ctx, rid: str, only: tuple = ()) -> None:
             for trace, rv, notes in runs:
                 raised = [e for e in trace if e.kind == "raise"]
                 got: Optional[set] = None
-                if wname in ("explode_generics", "collect_types"):
+                if wname == "reachability":
+                    tb = it.envs[runs.index((trace, rv, notes))].get(_reach_table_name(f), {})
+                    got = set()
+                    byrepr = {repr(t): t for t in _all_types(ty)}
+                    for k_, v_ in tb.items():
+                        if repr(PROD) in v_ or "P" in v_:
+                            if k_ not in byrepr:
+                                got = None      # a destination the model does not know: the iteration was not followed
+                                break
+                            got.add(byrepr[k_])
+                elif wname in ("explode_generics", "collect_types"):
                     vals = []
                     okv = True
                     for e in trace:
@@ -142,7 +193,7 @@ def walker_rule(ctx: Ctx, rid: str, only: tuple = ()) -> None:
                 if got is None:
                     verdict, why = (None if verdict is True else verdict), (why or "the values produced by the walker are not followed")
                     continue
-                classes = {t for t in got if t.kind == "class" and t != PROD}
+                classes = {t for t in got if t.kind == "class" and t != PROD and t is not ABSTRACT and t != ABSTRACT}
                 wrappers = {t for t in got if t.kind in ("list", "tuple", "annotated", "union")}
                 missing = leaves - classes
                 if missing:
@@ -151,7 +202,7 @@ def walker_rule(ctx: Ctx, rid: str, only: tuple = ()) -> None:
                            (f" (it stops at {sorted(t.name for t in wrappers)})" if wrappers else "") +
                            ": the symbols inside that wrapper are not seen by the analysis built on it")
                     break
-                if wrappers and wname in ("explode_generics", "strip_annotations", "register_type", "usable_grammar") and wname != "collect_types":
+                if wrappers and wname in ("reachability", "strip_annotations", "register_type", "usable_grammar"):
                     verdict = False
                     why = f"{wname} hands on the wrapper {sorted(t.name for t in wrappers)} itself as if it were a symbol"
                     break
@@ -188,18 +239,20 @@ def unfiltered_rule(ctx: Ctx, rid: str) -> None:
     explode_generics(<parameter>); every call of a propagator is checked at the argument bound to that parameter (a local
     name is followed to its single assignment)."""
     prog = ctx.prog
-    eg = _find_walker(ctx, "explode_generics")
     scope = [f for f in prog.functions.values() if f.module.name.startswith("geneticengine.grammar")
              and isinstance(f.node, (ast.FunctionDef, ast.AsyncFunctionDef))]
-    props: dict[str, tuple[FunctionInfo, int]] = {}
-    for f in scope:
-        if f is eg:
-            continue
-        for c in walk_local(f.node):
-            if isinstance(c, ast.Call) and call_name(c) == eg.name and c.args and isinstance(c.args[0], ast.Name):
-                ps = [p_ for p_ in f.params if p_ != "self"]
-                if c.args[0].id in ps:
-                    props[f.name] = (f, ps.index(c.args[0].id))
+    rp = _find_walker(ctx, "reachability")
+    # the propagator's parameter that holds the field types: the one its loop over destinations is rooted in
+    ps = [p_ for p_ in rp.params if p_ != "self"]
+    idx = None
+    for lp in walk_local(rp.node):
+        if isinstance(lp, (ast.For, ast.comprehension)):
+            for nm_ in ast.walk(lp.iter):
+                if isinstance(nm_, ast.Name) and nm_.id in ps:
+                    idx = ps.index(nm_.id)
+    if idx is None:
+        raise AnalysisError("C05: the reachability propagator does not iterate over one of its parameters (anchor changed)")
+    props: dict[str, tuple[FunctionInfo, int]] = {rp.name: (rp, idx)}
     n = 0
     for f in scope:
         for c in walk_local(f.node, include_nested=False):
@@ -312,7 +365,103 @@ def rule_r3(ctx: Ctx) -> None:
            "" if ok2 else f"initial table lists {sorted(table)} at 0 but preprocess resets only {sorted(zero_group)} to 0")
 
 
+def rule_r4(ctx: Ctx) -> None:
+    """A grammar that redoes its own analysis keeps its configuration.  Every method of Grammar from which self.__init__(..) is
+    reached through self-calls is interpreted on a grammar whose configuration (start symbol, supplied classes, depth-counting
+    mode) is symbolic, with the analysis passes (register_type, preprocess) stubbed: after the call the three configuration
+    attributes still hold the values they had.  A dropped argument silently re-analyses the grammar in the default mode, so
+    the minimum depths it reports are those of the other depth-counting mode."""
+    from ..modelinterp import Budget, Interp, Sym, UNKNOWN, _NONE, TypeV
+    prog = ctx.prog
+    gcls = prog.classes.get(f"{GRAMMAR_MOD}.Grammar")
+    if gcls is None:
+        raise AnalysisError("anchor class missing: Grammar")
+    init = gcls.methods.get("__init__")
+    if init is None:
+        raise AnalysisError("anchor function missing: Grammar.__init__")
+    # configuration = the constructor parameters stored on the object
+    config = []
+    for a in walk_local(init.node):
+        if isinstance(a, (ast.Assign, ast.AnnAssign)) and a.value is not None:
+            tg = a.targets[0] if isinstance(a, ast.Assign) else a.target
+            if isinstance(tg, ast.Attribute) and isinstance(tg.value, ast.Name) and tg.value.id == "self":
+                used = [x.id for x in ast.walk(a.value) if isinstance(x, ast.Name) and x.id in init.params[1:]]
+                if used:
+                    config.append((tg.attr, used[0]))
+    ctx.floor("C05.R4", len(config), 3, "configuration attributes stored by Grammar.__init__")
+
+    def reinit_reach(m, seen):
+        if m.fullname in seen:
+            return False
+        seen.add(m.fullname)
+        for c in walk_local(m.node):
+            if isinstance(c, ast.Call) and isinstance(c.func, ast.Attribute) and isinstance(c.func.value, ast.Name) and c.func.value.id == "self":
+                if c.func.attr == "__init__":
+                    return True
+                g = prog.lookup_method(gcls, c.func.attr)
+                if g is not None and reinit_reach(g, seen):
+                    return True
+        return False
+
+    n = 0
+    for name, m in sorted(gcls.methods.items()):
+        if name == "__init__" or not reinit_reach(m, set()):
+            continue
+        # only entry points: methods not themselves reached from another re-initialising method are reported
+        n += 1
+        vals = {"starting_symbol": Sym("START"), "considered_subtypes": [Sym("sub1"), Sym("sub2")], "expansion_depthing": Sym("MODE")}
+        env = {"self": Sym("self"), "self.alternatives": {}, "self.all_nodes": [], "self.distanceToTerminal": {},
+               "self.recursive_prods": set(), "self.terminals": set(), "self.non_terminals": set()}
+        for attr, param in config:
+            env[f"self.{attr}"] = vals.get(attr, Sym(attr.upper()))
+        for p_ in m.params[1:]:
+            env[p_] = Sym(p_)
+
+        def call_model(it, call, env_, args, kwargs):
+            nm = call_name(call)
+            if nm in ("register_type", "preprocess", "warn"):
+                return _NONE
+            if nm == "is_abstract":
+                return True
+            if nm == "get_gengy":
+                return {}
+            return None
+
+        it = Interp(prog, gcls, lambda *_: None, call_model, max_depth=5, max_traces=32)
+        construct = f"Grammar.{name}: the re-analysed grammar keeps its configuration"
+        try:
+            runs = it.run(m, env)
+        except Budget:
+            ctx.ob("C05.R4", m, m.node, construct, None, "too many interpretations")
+            continue
+        verdict, why = True, ""
+        if all(any(e.kind == "raise" for e in trace) for trace, _, _ in runs):
+            verdict, why = None, "no interpretation of the method completes"
+        for (trace, rv, notes), env_after in zip(runs, it.envs):
+            if any(e.kind == "raise" for e in trace):
+                continue
+            reinit = [e for e in trace if e.kind == "store" and e.name == f"self.{config[0][0]}"]
+            for attr, param in config:
+                before, after = env.get(f"self.{attr}"), env_after.get(f"self.{attr}")
+                if after == before:
+                    continue
+                if after is UNKNOWN or after is None and before is not None and not reinit:
+                    verdict, why = (None if verdict is True else verdict), f"self.{attr} after the call is not followed"
+                    continue
+                verdict = False
+                why = (f"after {name}() the grammar's {attr} is {after!r}, it was {before!r}: the re-initialisation does not hand on "
+                       f"'{param}', so the analysis is redone with another configuration (e.g. minimum depths of the other "
+                       f"depth-counting mode)")
+                break
+            if verdict is False:
+                break
+        ctx.ob("C05.R4", m, m.node, construct, verdict, why)
+    ctx.floor("C05.R4", n, 1, "Grammar methods that re-initialise the grammar in place")
+
+
 def run(ctx: Ctx) -> None:
+    ctx.rule("C05.R4", "a grammar that redoes its analysis in place keeps its start symbol, supplied classes and depth-counting mode")
+    rule_r4(ctx)
     ctx.rule("C05.R1", "type-form walkers handle list / annotated / union / tuple and re-analyse what they unwrap")
     ctx.rule("C05.R2", "distance equations: OR forms (union, abstract) use min, AND forms (tuple, concrete) use max; monotone descent")
     ctx.rule("C05.R3", "base-type tables agree: every base type produced without consuming a level has distance 0")
